@@ -161,7 +161,8 @@ fn session(rt: &tokio::runtime::Runtime, rng: &mut Rng, start: (u64, u64), full:
 }
 
 pub fn run(args: &Args) {
-    if args.mode != "record" { eprintln!("poll: only record"); std::process::exit(2); }
+    if args.mode == "replay" { return replay(args); }
+    if args.mode != "record" { eprintln!("poll: unknown mode"); std::process::exit(2); }
     watchdog(2400);
     let mut rng = Rng::new(args.seed);
     let mut res = Results::create(args.res.as_deref().unwrap_or(""));
@@ -196,5 +197,120 @@ pub fn run(args: &Args) {
     let mut tr = TraceOut::create(dir);
     for i in index { tr.ev(i); }
     tr.finish();
+    res.finish();
+}
+
+// ---------------------------------------------------------------------------------------------
+// Mechanism G: a script printed by TLC (Gen_Poll.tla) is turned into simulator behaviour keyed on
+// request counts and the REAL poll_chunks must deliver exactly the chunks, and return Ok/Err, as the
+// specification's behaviour does.
+
+#[derive(Default, Clone)]
+struct ReqPlan { uploads: u64, fault: bool, stop: bool, drop: bool }
+
+/// Environment actions attached to the k-th request of the poller (0-based), derived from the token script.
+fn plan_of(tokens: &[String]) -> Vec<ReqPlan> {
+    let req_pos: Vec<usize> = tokens.iter().enumerate().filter(|(_, t)| *t == "R" || *t == "F").map(|(i, _)| i).collect();
+    let mut plan: Vec<ReqPlan> = req_pos.iter().map(|&i| ReqPlan { uploads: 0, fault: tokens[i] == "F", stop: false, drop: false }).collect();
+    let req_index_before = |pos: usize| -> Option<usize> { req_pos.iter().rposition(|&p| p < pos) };
+    let req_index_after = |pos: usize| -> Option<usize> { req_pos.iter().position(|&p| p > pos) };
+    for (i, t) in tokens.iter().enumerate() {
+        match t.as_str() {
+            // an upload is observed by the next request
+            "U" => if let Some(k) = req_index_after(i) { plan[k].uploads += 1; },
+            // the stop signal is read by the next loop-top test: send it before serving the last request that precedes that test
+            "S" => {
+                let k = match tokens.iter().enumerate().skip(i).find(|(_, x)| *x == "T").map(|(p, _)| p) { Some(pt) => req_index_before(pt), None => req_index_after(i) };
+                if let Some(k) = k { plan[k].stop = true; }
+            }
+            // a dropped receiver is noticed by the next send
+            "D" => {
+                let k = match tokens.iter().enumerate().skip(i).find(|(_, x)| *x == "V" || *x == "X").map(|(p, _)| p) { Some(pv) => req_index_before(pv), None => req_index_after(i) };
+                if let Some(k) = k { plan[k].drop = true; }
+            }
+            _ => {}
+        }
+    }
+    plan
+}
+
+fn scripted_session(rt: &tokio::runtime::Runtime, start: (u64, u64), full: u64, plan: Vec<ReqPlan>) -> (Vec<(u64, u64, bool)>, bool, String, u64) {
+    let deliveries: Arc<Mutex<Vec<(u64, u64, bool)>>> = Arc::new(Mutex::new(Vec::new()));
+    let extra_requests = Arc::new(Mutex::new(0u64));
+    let mut outcome = (false, String::new());
+    rt.block_on(async {
+        let sim = Sim::start().await;
+        let base = Utc.with_ymd_and_hms(2024, 3, 1, 0, 0, 0).single().expect("base");
+        let world = Arc::new(Mutex::new(World { up: (0, 0), count: 0, volume_serial: 0, prefix_of: HashMap::new(), uploaded: HashMap::new(), base }));
+        {
+            let mut w = world.lock().expect("world");
+            let mut s = sim.state.lock().expect("state");
+            let mut vols: Vec<u64> = (1..=full).map(|j| ((start.0 + MAXVOL - 1 - j) % MAXVOL) + 1).collect();
+            vols.reverse();
+            for v in vols { for q in 1..=LASTSEQ { w.upload(&mut s, (v, q)); } }
+            for q in 1..=start.1 { w.upload(&mut s, (start.0, q)); }
+        }
+        let (tx, rx): (Sender<(ChunkIdentifier, Chunk<'static>)>, Receiver<(ChunkIdentifier, Chunk<'static>)>) = channel();
+        let (stop_tx, stop_rx) = channel::<bool>();
+        let rx_cell: Arc<Mutex<Option<Receiver<(ChunkIdentifier, Chunk<'static>)>>>> = Arc::new(Mutex::new(Some(rx)));
+        let drain = { let (deliveries, world, rx_cell) = (deliveries.clone(), world.clone(), rx_cell.clone()); move || {
+            if let Some(rx) = rx_cell.lock().expect("rx").as_ref() {
+                for (id, chunk) in rx.try_iter() {
+                    let w = world.lock().expect("world");
+                    let vol = id.volume().as_number() as u64;
+                    let (seq, ok) = match w.uploaded.get(&(vol, id.name().to_string())) { Some((bytes, lm, seq)) => (*seq, chunk.data() == bytes.as_slice() && id.site() == SITE && id.date_time() == Some(*lm)), None => (0, false) };
+                    deliveries.lock().expect("d").push((vol, seq, ok));
+                }
+            }
+        } };
+        {
+            let (world, rx_cell, drain, extra) = (world.clone(), rx_cell.clone(), drain.clone(), extra_requests.clone());
+            let counter = Arc::new(Mutex::new(0usize));
+            sim.set_handler(Some(Box::new(move |req: &Req, s: &mut SimState| {
+                if req.is_list() && req.q("max-keys") == Some("1") { return None; }
+                drain();
+                let k = { let mut c = counter.lock().expect("c"); *c += 1; *c - 1 };
+                let p = match plan.get(k) { Some(p) => p.clone(), None => { *extra.lock().expect("e") += 1; ReqPlan::default() } };
+                if p.stop { let _ = stop_tx.send(true); }
+                if p.drop { *rx_cell.lock().expect("rx") = None; }
+                for _ in 0..p.uploads { let mut w = world.lock().expect("world"); let nx = if w.up == (0, 0) { (1, 1) } else { succ(w.up) }; w.upload(s, nx); }
+                if p.fault && !req.is_list() { return Some(Resp::xml(500, "<Error><Code>InternalError</Code></Error>".into())); }
+                None
+            })));
+        }
+        let r = poll_chunks(SITE, tx, None, stop_rx).await;
+        drain();
+        outcome = (r.is_ok(), r.err().map(|e| format!("{e:?}")).unwrap_or_default());
+        sim.set_handler(None);
+    });
+    let d = deliveries.lock().expect("d").clone();
+    let e = *extra_requests.lock().expect("e");
+    (d, outcome.0, outcome.1, e)
+}
+
+fn replay(args: &Args) {
+    watchdog(2400);
+    let vectors = read_ndjson(args.input.as_deref().unwrap_or(""));
+    let mut res = Results::create(args.out.as_deref().unwrap_or(""));
+    for v in &vectors {
+        let tokens: Vec<String> = v["script"].as_array().map(|a| a.iter().map(|t| t.as_str().unwrap_or("").to_string()).collect()).unwrap_or_default();
+        let start = (v["start"][0].as_u64().unwrap_or(1), v["start"][1].as_u64().unwrap_or(1));
+        let full = v["start"][2].as_u64().unwrap_or(0);
+        let want: Vec<(u64, u64)> = v["hist"].as_array().map(|a| a.iter().map(|h| (h[0].as_u64().unwrap_or(0), h[1].as_u64().unwrap_or(0))).collect()).unwrap_or_default();
+        res.case(hash_value(v), want.len() >= 2);
+        let rt = runtime();
+        let (got, ok, err, extra) = scripted_session(&rt, start, full, plan_of(&tokens));
+        let small = json!({"start": v["start"], "script": tokens.join(""), "expected": {"deliveries": v["hist"], "result": v["result"], "why": v["why"]}, "got": {"deliveries": got.iter().map(|d| json!([d.0, d.1])).collect::<Vec<_>>(), "ok": ok, "err": err}});
+        let got_pos: Vec<(u64, u64)> = got.iter().map(|d| (d.0, d.1)).collect();
+        if got_pos != want {
+            let sig = if got_pos.len() > want.len() && got_pos[..want.len()] == want[..] { "C18/script/extra_delivery" } else if got_pos.len() < want.len() && want[..got_pos.len()] == got_pos[..] { "C18/script/missing_delivery" } else { "C18/script/wrong_delivery" };
+            res.mismatch("violation", sig, format!("expected {:?} got {:?}", want, got_pos), small.clone());
+        } else if ok != (v["result"] == json!("ok")) {
+            res.mismatch("violation", "C18/script/outcome", format!("expected {} ({}) got ok={} {}", v["result"], v["why"], ok, err), small.clone());
+        }
+        if got.iter().any(|d| !d.2) { res.mismatch("violation", "C18/script/payload_identity", "a delivered chunk differs from the uploaded object or its label".into(), small.clone()); }
+        if extra > 0 { res.mismatch("drift", "C18/script/extra_requests", format!("{extra} requests beyond the script"), small.clone()); }
+        if want.len() == 3 { res.sample(small); }
+    }
     res.finish();
 }
